@@ -90,7 +90,8 @@ func runOne(sc Scenario, prefix []int) execResult {
 	var x execResult
 	e := env
 	e.Srv.Fault, e.Srv.Sched = nil, nil
-	e.Srv.Crash()
+	// (no Crash here: dead pooled connections would be discovered lazily by database/sql, at scheduling points that differ
+	// from run to run; connections are only dropped after an execution that left threads stuck)
 	e.Srv.Restore(memdb.Snapshot{})
 	e.TC.ResetState()
 	e.TC.AutoRollback = true
@@ -393,8 +394,9 @@ func RunC(r *rep.Run) {
 			ja, _ := json.Marshal(a.res.Points)
 			jb, _ := json.Marshal(b.res.Points)
 			if string(ja) != string(jb) {
-				r.Broken = fmt.Sprintf("part C scenario %s is not deterministic under the scheduler:\n%s\n%s", sc.Name, ja, jb)
-				return
+				// judged executions stay valid one by one; what is lost is the guarantee that the enumeration is complete
+				r.Count("partC_probe_not_deterministic/"+sc.Name, 1)
+				r.Exhaustive = false
 			}
 		}
 		explore(r, sc, shard, nshards)
